@@ -56,21 +56,38 @@ Section AnyNum.
   Proof. unfold loop_set_area. destruct (negb _); [discriminate|]. destruct (vis_zero _); [discriminate|]. destruct (Nat.ltb _ _); [discriminate|]. intros E; inversion E; subst. split; reflexivity. Qed.
   Lemma set_perimeter_verts (L L' : Loop K) : loop_set_perimeter L = Ok L' -> verts L' = verts L.
   Proof. unfold loop_set_perimeter. destruct (negb _); [discriminate|]. destruct (vis_zero _); [discriminate|]. destruct (Nat.ltb _ _); [discriminate|]. intros E; inversion E; subst. reflexivity. Qed.
+  Lemma shr_pop_redundant (fuel : nat) : forall vs : list V, shr (fst (pop_redundant vs fuel)) vs.
+  Proof.
+    induction fuel as [|f IH]; intros vs; cbn [pop_redundant]; [apply shr_refl|].
+    destruct (last_is_redundant vs) as [[|]| |]; cbn [fst]; try apply shr_refl.
+    apply shr_trans with (removelast vs); [apply IH | apply shr_removelast].
+  Qed.
+  Lemma shr_drop_first_redundant (fuel : nat) : forall vs : list V, shr (fst (drop_first_redundant vs fuel)) vs.
+  Proof.
+    induction fuel as [|f IH]; intros vs; cbn [drop_first_redundant]; [apply shr_refl|].
+    destruct (Nat.ltb (length vs) 3); [apply shr_refl|].
+    destruct (is_collinear _ _ _) as [[|]| |]; cbn [fst]; try apply shr_refl.
+    pose proof (shr_pop_redundant (length vs) (tl vs)) as S1. destruct (pop_redundant (tl vs) (length vs)) as [vs1 r]. cbn [fst] in S1.
+    assert (S2 : shr vs1 vs) by (apply shr_trans with (tl vs); [exact S1 | apply shr_tl]).
+    destruct r; cbn [fst]; try exact S2. apply shr_trans with vs1; [apply IH | exact S2].
+  Qed.
   Lemma close_verts (L : Loop K) : shr (verts (fst (loop_close L))) (verts L).
   Proof.
-    unfold loop_close. destruct (Nat.ltb (llen L) 3); [apply shr_refl|].
-    destruct (is_collinear _ _ _) as [c1| |]; cbn [fst]; try apply shr_refl.
-    set (L1 := if c1 then set_verts L (removelast (verts L)) else L).
-    assert (S1 : shr (verts L1) (verts L)) by (subst L1; destruct c1; [apply shr_removelast | apply shr_refl]).
-    destruct (valid_to_add L1 _) as [u1| |]; cbn [fst]; try exact S1.
-    destruct (is_collinear _ _ _) as [c2| |]; cbn [fst]; try exact S1.
-    set (L2 := if c2 then set_verts L1 (tl (verts L1)) else L1).
-    assert (S2 : shr (verts L2) (verts L)) by (apply shr_trans with (verts L1); [subst L2; destruct c2; [apply shr_tl | apply shr_refl] | exact S1]).
+    unfold loop_close. destruct (lclosed L); [apply shr_refl|]. destruct (Nat.ltb (llen L) 3); [apply shr_refl|].
+    pose proof (shr_pop_redundant (llen L) (verts L)) as S1. destruct (pop_redundant (verts L) (llen L)) as [vs1 r1]. cbn [fst] in S1.
+    set (L1 := set_verts L vs1). assert (S1' : shr (verts L1) (verts L)) by exact S1.
+    destruct r1; cbn [fst]; try exact S1'.
+    destruct (Nat.ltb (length vs1) 3); [exact S1'|].
+    destruct (valid_to_add L1 _) as [u1| |]; cbn [fst]; try exact S1'.
+    pose proof (shr_drop_first_redundant (length vs1) vs1) as S2. destruct (drop_first_redundant vs1 (length vs1)) as [vs2 r2]. cbn [fst] in S2.
+    set (L2 := set_verts L1 vs2). assert (S2' : shr (verts L2) (verts L)) by (apply shr_trans with vs1; [exact S2 | exact S1]).
+    destruct r2; cbn [fst]; try exact S2'.
+    destruct (Nat.ltb (length vs2) 3); [exact S2'|].
     set (L3 := mkLoop (verts L2) (lnormal L2) true (larea L2) (lperim L2)).
-    destruct (loop_set_area L3) as [l4| |] eqn:E4; cbn [fst]; try exact S2.
+    destruct (loop_set_area L3) as [l4| |] eqn:E4; cbn [fst]; try exact S2'.
     destruct (set_area_verts _ _ E4) as [V4 _].
-    destruct (loop_set_perimeter l4) as [l5| |] eqn:E5; cbn [fst]; try (rewrite V4; exact S2).
-    rewrite (set_perimeter_verts _ _ E5), V4. exact S2.
+    destruct (loop_set_perimeter l4) as [l5| |] eqn:E5; cbn [fst]; try (rewrite V4; exact S2').
+    rewrite (set_perimeter_verts _ _ E5), V4. exact S2'.
   Qed.
 
   (** ** malformed documents are errors *)
